@@ -466,5 +466,21 @@ def _contains_kind(spec, kinds):
     return False
 
 
+def reset_caches():
+    """Process-global caches of the repo are emptied before every scenario, so that the number
+    of pre-emption points (and with it the schedule) does not depend on what ran earlier in
+    the process.  (The caches are not disabled: histories deliberately reuse one horizon
+    object across many cutoffs.)  Tolerates a tree in which they were refactored away."""
+    try:
+        from sktime.forecasting.base import ForecastingHorizon
+    except Exception:
+        return
+    for name in ("to_relative", "to_absolute", "to_indexer", "to_absolute_int"):
+        fn = getattr(ForecastingHorizon, name, None)
+        clear = getattr(fn, "cache_clear", None)
+        if clear is not None:
+            clear()
+
+
 def pickle_roundtrip(o):
     return pickle.loads(pickle.dumps(o))
